@@ -481,13 +481,16 @@ namespace {
       // limit): the last recorded failing script is kept
       return;
     }
+    // shrinking selects among many candidates: a stricter confirmation keeps
+    // it from drifting to scripts that fail only often
+    const int needed = failuresSeen[c.sub()] != 0 ? 10 : 4;
     for (int attempt = 0;; ++attempt) {
       try {
         executeOnce(c, s, ntasks);
         if (attempt != 0) c.tag("flaky_observation");
         return;
       } catch (const verif::Failure&) {
-        if (attempt == 3) {
+        if (attempt == needed - 1) {
           ++failuresSeen[c.sub()];
           throw;
         }
